@@ -418,6 +418,7 @@ func RunByz(sc ByzScenario, slot int) (out *ByzOutcome) {
 	}
 	lastAnn := time.Time{}
 	last := ""
+	var banSeen time.Time
 	for {
 		if t := w.Name(v.CM.Tip().ID); t != last {
 			last = t
@@ -429,6 +430,13 @@ func RunByz(sc ByzScenario, slot int) (out *ByzOutcome) {
 			break
 		}
 		if time.Now().After(deadline) {
+			break
+		}
+		if banSeen.IsZero() {
+			if v.PS.honestBans() > 0 {
+				banSeen = time.Now()
+			}
+		} else if time.Since(banSeen) > 8*time.Second {
 			break
 		}
 		if time.Since(lastAnn) > 250*time.Millisecond {
